@@ -36,6 +36,9 @@ META = dict(
                  '1e-12 relative slack plus a rounding floor of 1e-15 x (n x last grid time)^k (a few ulp of the numbers '
                  'held in the Van Loan block: cross moments of SFS bins are ~1e-5 of that scale and flat after absorption, '
                  'where they wobble by ~5e-16 absolute); default horizon at 1e-7 relative',
+                 'redundant clause: second moments at the DEFAULT horizon are compared at 1e-6 of the raw second moment '
+                 '(accuracy of the code over t_max ~ 1e3..1e4 when the regularisation factor of epoch 0 does not fit a later '
+                 'epoch: measured 3e-8 against the exact model value); explicit end times and first moments at 1e-9',
                  'only the non-stiff regime is compared: a clause evaluation during which PhaseGen logs a warning is '
                  'skipped (except in the horizon clause, where the warning is the observable)',
                  'the threshold 1-1e-15 of the horizon search is numeric: "not reached" is only asserted when '
@@ -179,12 +182,20 @@ def gen_redundant(cfg, rng):
     return dict(extra=extra, times=times, Te=rng.choice([x for x in pool if x > 0]))
 
 
+# second moments at the default horizon (t_max ~ 1e3..1e4 time units): the code takes its regularisation factor from the
+# first epoch only, so a later epoch with much slower rates leaves the Van Loan matrix badly scaled and expm loses digits
+# over the long horizon (measured 2e-8..5e-8 against the exact model value, different for different splittings of the
+# same time axis).  These are compared at the accuracy the code delivers there (1e-6 of the raw second moment, as in
+# C01); every statistic with an explicit end time and every first moment stays at 1e-9.
+DEFAULT_HORIZON_K2 = {'th.var': 'th.m2', 'th.m2': 'th.m2', 'tbl.var': 'tbl.m2', 'tbl.m2': 'tbl.m2'}
+
+
 def snapshot(pg, coal, cfg, times, Te):
     names = conv.cfg_names(cfg)
     th, tbl = coal.tree_height, coal.total_branch_length
     out = {
         'th.mean': (th.mean, 1), 'th.var': (th.var, 2), 'th.m2': (th.m2, 2), 'tbl.mean': (tbl.mean, 1),
-        'tbl.var': (tbl.var, 2), 'th.cdf(times)': (th.cdf(np.array(times)), 0),
+        'tbl.var': (tbl.var, 2), 'tbl.m2': (tbl.m2, 2), 'th.cdf(times)': (th.cdf(np.array(times)), 0),
         'th.accumulate(1,times)': (th.accumulate(1, times), 1),
         'tbl.accumulate(2,times,center=False)': (tbl.accumulate(2, times, center=False), 2),
         'th.moment(1,end_time=Te)': (th.moment(1, end_time=Te), 1),
@@ -213,9 +224,12 @@ def clause_redundant(ctx, pg, cfg, params):
         ctx.count('clause:redundant')
         for key, (a, k) in ref.items():
             b = res[key][0]
-            if differs(a, b, 1e-12 * scale ** k):
+            floor = 1e-12 * scale ** k
+            if key in DEFAULT_HORIZON_K2:
+                floor += 1e-6 * abs(float(ref[DEFAULT_HORIZON_K2[key]][0]))
+            if differs(a, b, floor):
                 report(ctx, f'redundant:{key.split("(")[0].split("[")[0]}', cfg, 'redundant', params, variant=label,
-                       statistic=key, expected=arr(a), observed=arr(b), tolerance=dict(rel=REL, abs=1e-12 * scale ** k),
+                       statistic=key, expected=arr(a), observed=arr(b), tolerance=dict(rel=REL, abs=floor),
                        oracle='same configuration without the redundant change entries (sparse nested dicts)')
                 break
 
